@@ -41,3 +41,13 @@ claim("C01",
       "exhaustive enumeration of the single-step relation (state x instruction -> state) of the real CPU against an independent reference SM83 interpreter",
       "For all 245 base and 256 CB opcodes the real CPU executes one instruction from enumerated states and every register, flag, addressed memory write and (on a spread of cases) every writable memory byte is compared with a reference interpreter decoded from the opcode bit fields: 8-bit ALU over A x operand x flag nibbles, INC/DEC/CB/accumulator operations over value x all 16 flag nibbles, DAA also row by row against the repository's daa.csv, INC/DEC rr over all 65,536 values, ADD SP,e and LD HL,SP+e over SP x e (all 2^24 in the thorough tier), ADD HL,rr over the stated carry-chain sub-domain, POP AF over all low bytes, and every opcode over 13 pointer placements x 16 flag nibbles x operand pairs x 4 code placements (WRAM, HRAM, across DFFF/E000, wrapping FFFF/0000).",
       "Trusted: ref/sm83.go (cross-checked against daa.csv at run time). ADD HL,rr is a stated sub-domain of 2^32. Data pointers avoid side-effecting I/O registers. STOP's PC increment is a don't-care.")
+
+claim("C02",
+      "exhaustive enumeration of instruction lengths over all opcodes, flag nibbles and ordered opcode pairs on the real CPU against reference cycle counts",
+      "The number of ExecuteMachineCycle calls between instruction boundaries is compared with the reference count for every opcode under all 16 flag nibbles and for every ordered pair of the 500 executable encodings (the second instruction runs immediately after the first on the same CPU, so a stale early-finish predicate or leftover micro-op state shows), with control transfers landing in WRAM; in addition every instruction executed by the blargg timing ROMs is measured by a per-instruction monitor.",
+      "Trusted: the reference cycle rules (decode-based, Pan Docs/gbops). Interrupt dispatch and HALT lengths are C04/C05.")
+
+claim("C03",
+      "exhaustive enumeration of memory-accessing opcodes x pointer placements with per-cycle marker injection and per-cycle write observation on the real CPU",
+      "For every opcode that reads or writes memory, 8 pointer placements (WRAM, echo, HRAM, VRAM/OAM with LCD off) and 16 flag nibbles, the harness stores the distinguishing marker at each read address only before the documented read cycle, so the value consumed (visible in registers/flags at the boundary) identifies the cycle of each read, and reads back every write target after every machine cycle so the cycle of each write is observed; documented cycles come from the reference interpreter's access list (LD A,(nn) R@4, PUSH W@3,4, INC (HL) R@2 W@3, CB (HL) R@3 W@4, CALL W@5,6, RET cc R@3,4, LD (nn),SP W@4,5, ...).",
+      "Operand-byte fetch timing and interrupt-dispatch pushes are outside the statement. Accesses to side-effecting I/O registers are not used as probes.")
